@@ -629,6 +629,13 @@ func (rc *RegClient) imageCopyOpt(ctx context.Context, refSrc ref.Ref, refTgt re
 	waitCount := 0
 	ctx, cancel := context.WithCancel(ctx)
 	defer cancel()
+	// waitAbort stops and waits for the background tasks, it is used before returning while tasks may still be running
+	waitAbort := func() {
+		cancel()
+		for ; waitCount > 0; waitCount-- {
+			<-waitCh
+		}
+	}
 	parentsNew := make([]digest.Digest, len(parents)+1)
 	copy(parentsNew, parents)
 	parentsNew[len(parentsNew)-1] = sDig
@@ -806,6 +813,7 @@ func (rc *RegClient) imageCopyOpt(ctx context.Context, refSrc ref.Ref, refTgt re
 		}
 		rl, err := rc.ReferrerList(ctx, rSubject, referrerOpts...)
 		if err != nil {
+			waitAbort()
 			return err
 		}
 		if !rl.Source.IsSet() || ref.EqualRepository(refSrc, rl.Source) {
@@ -864,6 +872,7 @@ func (rc *RegClient) imageCopyOpt(ctx context.Context, refSrc ref.Ref, refTgt re
 				rc.slog.Warn("Failed to list tags for digest-tag copy",
 					slog.String("source", refSrc.Reference),
 					slog.String("err", err.Error()))
+				waitAbort()
 				return err
 			}
 			tags, err := tl.GetTags()
@@ -872,6 +881,7 @@ func (rc *RegClient) imageCopyOpt(ctx context.Context, refSrc ref.Ref, refTgt re
 				rc.slog.Warn("Failed to list tags for digest-tag copy",
 					slog.String("source", refSrc.Reference),
 					slog.String("err", err.Error()))
+				waitAbort()
 				return err
 			}
 			if tags == nil {
